@@ -34,7 +34,7 @@ def verify(src):
         res['applies'] = rc == 0
         if rc:
             return name, 'patch does not apply: ' + out[-300:]
-        sh('git diff > /var/tmp/vs-%s.diff' % name, cwd=wt)
+        sh('git diff HEAD > /var/tmp/vs-%s.diff' % name, cwd=wt)
         rc, out = sh('cmake -G Ninja -B _build -DCMAKE_BUILD_TYPE=RelWithDebInfo -DCMAKE_C_FLAGS=-Wno-error . >/dev/null && '
                      'cmake --build _build -- -k 0 -j8 > build.log 2>&1; grep ^FAILED: build.log | grep -v l2m', cwd=wt, timeout=3600)
         res['build_failures_other_than_l2m'] = '\n'.join(l for l in out.split('\n') if l.startswith('FAILED:'))
